@@ -22,15 +22,16 @@ int idn_resconf_create (struct verif_idn_resconf **ctx)
 {
     *ctx = malloc (sizeof **ctx);
     (*ctx)->live = 1;
-    verif_resconf_created++; verif_resconf_live++;
+    /* relaxed atomics: the counters are also updated from the threads of the TSan harness */
+    __atomic_fetch_add (&verif_resconf_created, 1, __ATOMIC_RELAXED); __atomic_fetch_add (&verif_resconf_live, 1, __ATOMIC_RELAXED);
     return 0;
 }
 void idn_resconf_destroy (struct verif_idn_resconf *ctx)
 {
-    if (ctx == NULL || !ctx->live) { verif_resconf_bad_destroy++; return; }
+    if (ctx == NULL || !ctx->live) { __atomic_fetch_add (&verif_resconf_bad_destroy, 1, __ATOMIC_RELAXED); return; }
     ctx->live = 0;
     free (ctx);
-    verif_resconf_destroyed++; verif_resconf_live--;
+    __atomic_fetch_add (&verif_resconf_destroyed, 1, __ATOMIC_RELAXED); __atomic_fetch_sub (&verif_resconf_live, 1, __ATOMIC_RELAXED);
 }
 const char *idn_result_tostring (int r) { return idn2_strerror (r); }
 int idn_res_encodename (struct verif_idn_resconf *ctx, int actions, const char *from, char *to, size_t tolen)
